@@ -276,7 +276,7 @@ func (s *c11Scenario) body(c *mc.Ctx) {
 				drawn[key] = true
 				if src.kind == "ocsp" && s.hang {
 					ocspCls[src.cert][src.idx] = 3 // an error for the decision table
-					<-raw.Context().Done()       // silent until the library's side gives up
+					<-raw.Context().Done()         // silent until the library's side gives up
 					return netsim.Answer{Err: raw.Context().Err()}
 				}
 				if src.kind == "ocsp" {
